@@ -264,7 +264,10 @@ def dfcontainer(chk):
         seqs = [s for k in (1, 2, 3, 4) for s in itertools.product(ops_all, repeat=k)]
         if chk.tier != "thorough":
             seqs = [s for i, s in enumerate(seqs) if len(s) < 3 or i % (7 if sname != "nested" else 61) == 0 or (s[0] == ("get-whole",) and s[-1] == ("get-whole",) and sname != "nested")]
-        for linear in (False, True):
+        # one symbolic run per block of sequences (a run has a step budget; the thorough tier has 4680 sequences for `nested`)
+        all_seqs = seqs
+        blocks = [all_seqs[k: k + 400] for k in range(0, len(all_seqs), 400)]
+        for linear, (bi, seqs) in itertools.product((False, True), enumerate(blocks)):
             def t(it, sh=sh, linear=linear, seqs=seqs):
                 m = e.module(CC)
                 V, FA, TA = (it.lookup_global(e.module(CORE), k) for k in ("Variable", "FieldAccess", "TupleAccess"))
@@ -383,13 +386,13 @@ def dfcontainer(chk):
                     p.ctx.ghost["why"] = f"sequence {bad[0][0]}: {bad[0][2]}"
                 return z3.BoolVal(not bad)
             whys = []
-            outs = chk.prove_paths(f"DFContainer[{sname},{'linear' if linear else 'copyable'}-leaves;{len(seqs)} operation sequences]:every-read-returns-the-current-value(no-stale-packed-wire)", paths,
+            outs = chk.prove_paths(f"DFContainer[{sname},{'linear' if linear else 'copyable'}-leaves;{len(all_seqs)} operation sequences{'' if len(blocks) == 1 else f', block {bi + 1} of {len(blocks)}'}]:every-read-returns-the-current-value(no-stale-packed-wire)", paths,
                                    lambda p: (lambda r: (whys.append(p.ctx.ghost.get("why")), r)[1])(post(p)), func=f"{CC}:DFContainer.__setitem__",
                                    replay=lambda m_: {"script": REPLAY_DFC, "input": {}})
             for o in outs:
                 if o.status == "refuted" and whys and whys[0]:
                     o.detail = (o.detail + " " if o.detail else "") + whys[0]
-            n_ok += 1
+            n_ok += 1 if bi == 0 else 0
     chk.record("DFContainer:shapes-explored", n_ok == 6, str(n_ok), kind="reachability")
     chk.use_engine(e)
 
